@@ -15,6 +15,7 @@ def obligations(tier):
         obls.append(vr_obl(0, sl))
     if tier == 'thorough':
         obls += [vr_obl(0, sl, difbits=34, timeout=1800, tiers=('thorough',)) for sl in ('7', '1000')]
+    obls += [vr_obl(4, sl) for sl in ('7', '1000')]      # vr_set_io_ratio while a cross-fade is running: both streams slew to the same ratio
     for kind in (8, 2, 3):
         obls.append(api_step(4, 0, 0, kind, 2))
     obls.append(lsr_obl(0, 8, 2, '2.0'))
